@@ -25,7 +25,9 @@ N_CASES = {"quick": 3000, "thorough": 80000}
 
 
 def _plan(rng, tag, ws_kind=False):
-    respond = rng.choice(["now", "now", "late", "never", "raise", "late_after_disconnect", "split_late"])
+    respond = rng.choice(["now", "now", "late", "never", "raise", "late_after_disconnect", "split_late", "trailers_late"])
+    if ws_kind and respond == "trailers_late":
+        respond = "late"
     read = rng.choice(["eager", "eager", "none"])
     return {"respond": respond, "read": read, "tag": tag}
 
@@ -56,6 +58,10 @@ def _http_script(p):
         #  nothing: an application instance started now could never be told of a disconnect that has already happened)
         sc += [["recv_until_disconnect"], ["note", "saw-disconnect"]] + ([["send", {"type": "http.response.push", "path": "/pushed-late-%d" % tag, "headers": []}]] if p.get("late_push") else []) + \
               [["send", start], ["send", body]]
+    elif r == "trailers_late":
+        # the response announced trailers and its body is complete when the connection goes; the trailers come afterwards
+        sc += [["send", {"type": "http.response.start", "status": 200, "headers": [], "trailers": True}], ["send", body], ["wait", "late"],
+               ["send", {"type": "http.response.trailers", "headers": [(b"x-t", b"1")], "more_trailers": False}]]
     elif r == "raise":
         sc += [["wait", "late"], ["raise", "Exception"]]
     sc.append(["linger", 40.0])
@@ -108,7 +114,7 @@ def gen(rng, tier):
             for k in range(n):
                 tag = i * 10 + k
                 p = _plan(rng, tag)
-                if shape != "h1.single" and k == 0 and p["respond"] in ("never", "late_after_disconnect", "split_late"):
+                if shape != "h1.single" and k == 0 and p["respond"] in ("never", "late_after_disconnect", "split_late", "trailers_late"):
                     p["respond"] = "now"
                 plans.append(p)
                 by_tag[str(tag)] = _http_script(p)
@@ -353,6 +359,8 @@ def _when(t, p):
         return "response-after-closure"
     if r == "split_late":
         return "response-across-closure"
+    if r == "trailers_late":
+        return "response-awaiting-trailers"
     if r == "raise":
         return "app-raises"
     if r == "never":
